@@ -255,6 +255,9 @@ func (b *simBody) Read(p []byte) (int, error) {
 	if b.closed {
 		return 0, errors.New("http: read on closed response body")
 	}
+	if len(p) == 0 {
+		return 0, nil
+	}
 	if err := b.ctx.Err(); err != nil {
 		return 0, err
 	}
